@@ -1976,6 +1976,18 @@ class unyt_array(np.ndarray):
                             "added with data that has different units."
                         )
                     inp1 = np.asarray(inp1, dtype=new_dtype) * conv
+            if unit_operator in (_multiply_units, _divide_units) and (
+                u0.base_offset
+                and u0.dimensions is temperature
+                or u1.base_offset
+                and u1.dimensions is temperature
+            ):
+                # refuse before evaluating: with out= (or an in-place operator)
+                # the ufunc would already have overwritten its target
+                raise InvalidUnitOperation(
+                    "Quantities with units of Fahrenheit or Celsius "
+                    "cannot be multiplied, divided, subtracted or added."
+                )
             # get the unit of the result
             mul, unit = unit_operator(u0, u1)
             # actually evaluate the ufunc
